@@ -121,8 +121,10 @@ def random_transfer(
         else:
             raise TypeError(f"Ballot {ballot} has no ranking.")
 
+    transferable_ballots = [b for b in winner_ballots if b.ranking]
     surplus_ballots = random.sample(
-        [b for b in winner_ballots if b.ranking], int(fpv) - threshold
+        transferable_ballots,
+        min(int(fpv) - threshold, len(transferable_ballots)),
     )
     updated_ballots += surplus_ballots
 
